@@ -315,6 +315,12 @@ def verify_function(ctx, relpath, qual, canary=True, struct=None, label=None):
             raise OutOfReach('no sort for *%s' % va)
         st.env[va] = tuple(make_param(eng, st, va, None, ov))
         params.append(va)
+    if node.args.kwarg is not None:
+        # **kwargs: a dict described by the contract ({'__dict__': {...}}); no description -> no keyword arguments
+        kw = node.args.kwarg.arg
+        ov = (struct or {}).get(kw, c.params.get(kw))
+        st.env[kw] = make_param(eng, st, kw, None, ov) if ov is not None else {}
+        params.append(kw)
     nob0 = len(ctx.obligations)
     if label:
         fr.case_label = label
